@@ -45,3 +45,17 @@ add("C08", "model_checking", "explicit-state exploration of all record/stimulate
     "simulator driven by the request log only, so misplaced rows/indices cannot cancel out.",
     "Reference simulator mirrors the documented staggering; recorded currents may follow either voltage convention (weaker reading); runs are 2-6 steps.",
     "DESIGN.md §7 C08")
+
+add("C19", "model_checking", "explicit-state BFS over editing histories (about 30 operations, depth 2-3) on real modules with canonical state hashing; invariants on every state and a tables-derived reference simulation on every distinct state",
+    "Breadth-first search from three non-trivial initial states; each history is replayed from scratch on the real module; commuting histories are merged by a "
+    "canonical snapshot hash; seven table invariants are evaluated in every state and integrate is compared with a reference simulator built only from the "
+    "displayed tables. BFS order yields shortest counterexamples.",
+    "Weaker readings of DESIGN C19 (stale references to states of channels deleted afterwards are observations); depth 2 (quick) / 3 (thorough); reference simulator vf/refsim.py.",
+    "DESIGN.md §7 C19")
+
+add("C18", "model_checking", "exhaustive visit of every distinct state of the editing state space (BFS depth 1-2 from five initial states): pickle/deepcopy round trip, simulation/gradient equality, and every alphabet operation applied to the copy",
+    "For every distinct reached module state the pickle and deepcopy copies must have identical canonical snapshots (incl. xyzr), bit-identical integrate output and equal "
+    "gradients; then each operation of the alphabet is applied to the copy and the original's snapshot hash must stay unchanged; SWC radius functions are exercised by "
+    "set_ncomp on the unpickled copy.",
+    "Determinism of eager CPU execution; states limited to the C19 alphabet plus an SWC cell and a network with trainables/clamps/groups.",
+    "DESIGN.md §7 C18")
